@@ -367,6 +367,11 @@ impl Hypercore {
         }
 
         let byte_range = self.byte_range(index, None).await?;
+        if byte_range.length == 0 {
+            // An empty block occupies no bytes in the data store. Its offset may lie
+            // beyond the end of the store after a clear truncated it, so don't read.
+            return Ok(Some(vec![]));
+        }
 
         // TODO: Generalize Either response stack
         let data = match self.block_store.read(&byte_range, None) {
